@@ -273,7 +273,7 @@ pub fn generate_c02(a: &Args) {
     let (rmax, nmax) = if is_thorough(a) { (3, 5) } else { (3, 4) };
     let mut rng2 = rng.clone();
     all_matrices(rmax, nmax, |rows, n| enc_event(&mut out, rows, n, &mut rng2));
-    let (small, big) = if is_thorough(a) { (6000, 600) } else { (700, 40) };
+    let (small, big) = if is_thorough(a) { (25000, 3000) } else { (700, 40) };
     for i in 0..small {
         let (rows, n) = c02_random(&mut rng, i, false);
         enc_event(&mut out, &rows, n, &mut rng);
@@ -365,7 +365,7 @@ pub fn generate_c09(a: &Args) {
             }
         }
     }
-    let (small, big) = if is_thorough(a) { (8000, 800) } else { (900, 50) };
+    let (small, big) = if is_thorough(a) { (30000, 4000) } else { (900, 50) };
     for i in 0..small {
         let (rows, n) = c09_random(&mut rng, i, false);
         sys_event(&mut out, &rows, n);
